@@ -75,14 +75,14 @@ end CSt
 
 /-! downstream subscribers -/
 
+def runDel (i : Nat) (o : Option Nat) (s : CSt) : CSt :=
+  match o with
+  | some j => s.modSubj j fun x => { x with obs := x.obs.erase i }
+  | none => s
+
 def dSubnUnsub (i : Nat) (s : CSt) : CSt :=
-  let d := s.subs i
-  if d.done then s
-  else
-    let s := s.modSub i fun d => { d with done := true, delFin := none }
-    match d.delFin with
-    | some j => s.modSubj j fun x => { x with obs := x.obs.erase i }
-    | none => s
+  if (s.subs i).done then s
+  else runDel i (s.subs i).delFin (s.modSub i fun d => { d with done := true, delFin := none })
 
 def dUnsubscribe (i : Nat) (s : CSt) : CSt :=
   if (s.subs i).status = 0 then dSubnUnsub i (s.modSub i fun d => { d with status := 2 }) else s
@@ -90,51 +90,66 @@ def dUnsubscribe (i : Nat) (s : CSt) : CSt :=
 def dNext (i : Nat) (v : Int) (s : CSt) : CSt :=
   if (s.subs i).status = 0 then s.modSub i fun d => { d with trace := d.trace ++ [.next v] } else s.drop (.next v)
 
-def dTerm (i : Nat) (t : Ev) (s : CSt) : CSt :=
-  let s := if (s.subs i).status = 0 then s.modSub i fun d => { d with status := t.code, trace := d.trace ++ [t] } else s.drop t
-  dSubnUnsub i s
+def dDeliver (i : Nat) (t : Ev) (s : CSt) : CSt :=
+  if (s.subs i).status = 0 then s.modSub i fun d => { d with status := t.code, trace := d.trace ++ [t] } else s.drop t
+
+def dTerm (i : Nat) (t : Ev) (s : CSt) : CSt := dSubnUnsub i (dDeliver i t s)
 
 /-! subject j -/
 
+def subjStore (conn : Conn) (j : Nat) (v : Int) (s : CSt) : CSt :=
+  match conn with
+  | .behavior _ => s.modSubj j fun x => { x with last := v }
+  | _ => s
+
+def bcastNext (j : Nat) (v : Int) (s : CSt) : CSt :=
+  ((s.subjects j).obs).foldl (fun s i => dNext i v s) s
+
+def subjBuffer (conn : Conn) (j : Nat) (v : Int) (s : CSt) : CSt :=
+  match conn with
+  | .replay n =>
+    if ((s.subjects j).buf ++ [v]).length > n then
+      (s.drop (.next (((s.subjects j).buf ++ [v]).headD 0))).modSubj j fun x =>
+        { x with buf := (x.buf ++ [v]).drop ((x.buf ++ [v]).length - n) }
+    else s.modSubj j fun x => { x with buf := x.buf ++ [v] }
+  | .replayAll => s.modSubj j fun x => { x with buf := x.buf ++ [v] }
+  | _ => s
+
 def subjNext (conn : Conn) (j : Nat) (v : Int) (s : CSt) : CSt :=
   match (s.subjects j).status with
-  | .open =>
-    let s := match conn with
-      | .behavior _ => s.modSubj j fun x => { x with last := v }
-      | _ => s
-    let s := ((s.subjects j).obs).foldl (fun s i => dNext i v s) s
-    match conn with
-    | .replay n =>
-      let vals := (s.subjects j).buf ++ [v]
-      if vals.length > n then
-        (s.drop (.next (vals.headD 0))).modSubj j fun x => { x with buf := vals.drop (vals.length - n) }
-      else s.modSubj j fun x => { x with buf := vals }
-    | .replayAll => s.modSubj j fun x => { x with buf := x.buf ++ [v] }
-    | _ => s
+  | .open => subjBuffer conn j v (bcastNext j v (subjStore conn j v s))
   | _ => s.drop (.next v)
 
+def bcastTerm (j : Nat) (t : Ev) (s : CSt) : CSt :=
+  ((s.subjects j).obs).foldl (fun s i => dTerm i t s) s
+
+def subjClear (j : Nat) (s : CSt) : CSt := s.modSubj j fun x => { x with obs := [] }
+
 def subjTerm (j : Nat) (t : Ev) (s : CSt) : CSt :=
-  let s := match (s.subjects j).status with
-    | .open =>
-      let s := s.modSubj j fun x => { x with status := Status.ofTerminal t }
-      ((s.subjects j).obs).foldl (fun s i => dTerm i t s) s
-    | _ => s.drop t
-  s.modSubj j fun x => { x with obs := [] }
+  match (s.subjects j).status with
+  | .open => subjClear j (bcastTerm j t (s.modSubj j fun x => { x with status := Status.ofTerminal t }))
+  | _ => subjClear j (s.drop t)
+
+def subjReplay (conn : Conn) (j i : Nat) (s : CSt) : CSt :=
+  match conn with
+  | .replay _ | .replayAll => ((s.subjects j).buf).foldl (fun s v => dNext i v s) s
+  | _ => s
+
+def subjLast (conn : Conn) (j i : Nat) (s : CSt) : CSt :=
+  match conn with
+  | .behavior _ => dNext i (s.subjects j).last s
+  | _ => s
+
+def subjRegister (j i : Nat) (s : CSt) : CSt :=
+  if (s.subs i).done then
+    (s.modSubj j fun x => { x with obs := x.obs ++ [i] }).modSubj j fun x => { x with obs := x.obs.erase i }
+  else (s.modSubj j fun x => { x with obs := x.obs ++ [i] }).modSub i fun d => { d with delFin := some j }
 
 def subjSubscribe (conn : Conn) (j i : Nat) (s : CSt) : CSt :=
-  let s := match conn with
-    | .replay _ | .replayAll => ((s.subjects j).buf).foldl (fun s v => dNext i v s) s
-    | _ => s
-  match (s.subjects j).status with
-  | .errored e => dTerm i (.error e) s
-  | .completed => dTerm i .complete s
-  | .open =>
-    let s := match conn with
-      | .behavior _ => dNext i (s.subjects j).last s
-      | _ => s
-    let s := s.modSubj j fun x => { x with obs := x.obs ++ [i] }
-    if (s.subs i).done then s.modSubj j fun x => { x with obs := x.obs.erase i }
-    else s.modSub i fun d => { d with delFin := some j }
+  match ((subjReplay conn j i s).subjects j).status with
+  | .errored e => dTerm i (.error e) (subjReplay conn j i s)
+  | .completed => dTerm i .complete (subjReplay conn j i s)
+  | .open => subjRegister j i (subjLast conn j i (subjReplay conn j i s))
 
 /-! the link (source → subject) -/
 
@@ -145,42 +160,69 @@ def resetSubject (cfg : CCfg) (s : CSt) : CSt :=
              nsubjects := s.nsubjects + 1, subject := s.nsubjects }
   else s
 
-def lSubnUnsub (cfg : CCfg) (c : Nat) (s : CSt) : CSt :=
-  let l := s.links c
-  if l.done then s
-  else
-    let s := s.modLink c fun x => { x with done := true, tdFin := false, resetFin := false }
-    let s := if l.tdFin then s.modLink c fun x => { x with upTorn := true } else s
-    if l.resetFin then resetSubject cfg s else s
+/-- finalizer 1 of the link's Subscription: the probe's teardown -/
+def lRunTd (c : Nat) (b : Bool) (s : CSt) : CSt :=
+  if b then s.modLink c fun x => { x with upTorn := true } else s
 
+/-- finalizer 2: `resetSubject` -/
+def lRunReset (cfg : CCfg) (b : Bool) (s : CSt) : CSt :=
+  if b then resetSubject cfg s else s
+
+/-- the link's `Subscription.Unsubscribe` (subscription.go:114-150) -/
+def lSubnUnsub (cfg : CCfg) (c : Nat) (s : CSt) : CSt :=
+  if (s.links c).done then s
+  else lRunReset cfg (s.links c).resetFin (lRunTd c (s.links c).tdFin
+        (s.modLink c fun x => { x with done := true, tdFin := false, resetFin := false }))
+
+/-- the link's `Unsubscribe` (subscriber.go:259-263) -/
 def lUnsubscribe (cfg : CCfg) (c : Nat) (s : CSt) : CSt :=
   if (s.links c).status = 0 then lSubnUnsub cfg c (s.modLink c fun x => { x with status := 2 }) else s
 
+def lNext (cfg : CCfg) (c : Nat) (v : Int) (s : CSt) : CSt :=
+  if (s.links c).status = 0 then subjNext cfg.conn (s.links c).target v s else s.drop (.next v)
+
+def lTerm (cfg : CCfg) (c : Nat) (t : Ev) (s : CSt) : CSt :=
+  if (s.links c).status = 0 then
+    lSubnUnsub cfg c (subjTerm (s.links c).target t (s.modLink c fun x => { x with status := t.code }))
+  else lSubnUnsub cfg c (s.drop t)
+
 def lEmit (cfg : CCfg) (c : Nat) (x : Ev) (s : CSt) : CSt :=
   match x with
-  | .next v => if (s.links c).status = 0 then subjNext cfg.conn (s.links c).target v s else s.drop (.next v)
-  | t =>
-    let s := if (s.links c).status = 0 then subjTerm (s.links c).target t (s.modLink c fun x => { x with status := t.code })
-             else s.drop t
-    lSubnUnsub cfg c s
+  | .next v => lNext cfg c v s
+  | t => lTerm cfg c t s
+
+/-- `source.SubscribeWithContext(ctx, s.subject)` creates the link (and counts in `total`) -/
+def newLink (s : CSt) : CSt :=
+  { s with links := (fun n => if n = s.nlinks then { target := s.subject } else s.links n), nlinks := s.nlinks + 1 }
+
+def playPre (cfg : CCfg) (c : Nat) (pre : List Ev) (s : CSt) : CSt :=
+  pre.foldl (fun s x => lEmit cfg c x s) s
+
+/-- observable.go:310: `Add(the probe's teardown)` -/
+def linkAddTeardown (c : Nat) (s : CSt) : CSt :=
+  if (s.links c).done then s.modLink c fun x => { x with upTorn := true } else s.modLink c fun x => { x with tdFin := true }
+
+/-- observable.go:549: `s.subscription.Add(resetSubject)`, outside the lock -/
+def linkAddReset (cfg : CCfg) (c : Nat) (s : CSt) : CSt :=
+  if (s.links c).done then resetSubject cfg s else s.modLink c fun x => { x with resetFin := true }
+
+/-- observable.go:546: `s.subscription == nil || s.subscription.IsClosed()` -/
+def needsConnect (s : CSt) : Bool :=
+  match s.subscription with
+  | none => true
+  | some c => (s.links c).status != 0
+
+def connectNew (cfg : CCfg) (s : CSt) : CSt :=
+  linkAddReset cfg s.nlinks
+    { (linkAddTeardown s.nlinks (playPre cfg s.nlinks (cfg.pre s.nlinks) (newLink s))) with subscription := some s.nlinks }
+
+/-- the harness notes whether Connect returned the subscription the previous Connect returned -/
+def noteRet (s : CSt) : CSt :=
+  { s with same := s.same ++ [s.lastRet.isSome && s.lastRet == s.subscription], lastRet := s.subscription }
 
 /-- `ConnectWithContext` (observable.go:544-559) -/
 def connect (cfg : CCfg) (s : CSt) : CSt :=
-  let again := match s.subscription with
-    | none => true
-    | some c => (s.links c).status != 0
-  let s := if again then
-      let c := s.nlinks
-      let k := s.nlinks
-      let s := { s with links := (fun n => if n = c then { target := s.subject } else s.links n), nlinks := s.nlinks + 1 }
-      let s := (cfg.pre k).foldl (fun s x => lEmit cfg c x s) s
-      -- observable.go:310: Add(the probe's teardown)
-      let s := if (s.links c).done then s.modLink c fun x => { x with upTorn := true } else s.modLink c fun x => { x with tdFin := true }
-      let s := { s with subscription := some c }
-      -- [/mu]  s.subscription.Add(resetSubject)
-      if (s.links c).done then resetSubject cfg s else s.modLink c fun x => { x with resetFin := true }
-    else s
-  { s with same := s.same ++ [s.lastRet.isSome && s.lastRet == s.subscription], lastRet := s.subscription }
+  noteRet (if needsConnect s then connectNew cfg s else s)
 
 inductive CEvent
   | sub
@@ -193,10 +235,12 @@ deriving DecidableEq, Repr, Inhabited
 def push (cfg : CCfg) (x : Ev) (s : CSt) : CSt :=
   (List.range s.nlinks).foldl (fun s c => if s.upLive c then lEmit cfg c x s else s) s
 
+/-- the subject's `Subscribe` creates the downstream subscriber -/
+def newSub (s : CSt) : CSt :=
+  { s with subs := (fun k => if k = s.nsubs then {} else s.subs k), nsubs := s.nsubs + 1 }
+
 def step (cfg : CCfg) (s : CSt) : CEvent → CSt
-  | .sub =>
-    let i := s.nsubs
-    subjSubscribe cfg.conn s.subject i { s with subs := (fun k => if k = i then {} else s.subs k), nsubs := s.nsubs + 1 }
+  | .sub => subjSubscribe cfg.conn s.subject s.nsubs (newSub s)
   | .unsub i => if i < s.nsubs then dUnsubscribe i s else s
   | .src x => push cfg x s
   | .connect => connect cfg s
